@@ -42,6 +42,7 @@ type contextStackEntry struct {
 	CurrentObjectCount  int
 	ExpectedObjectCount int // -1 means ignored
 	Keys                map[interface{}]bool
+	MarkerID            string // Only set on marked object rule entries
 }
 
 type Context struct {
@@ -126,6 +127,11 @@ func (_this *Context) stackRule(rule EventRule, dataType DataType, expectedObjec
 
 func (_this *Context) UnstackRule() EventRule {
 	unstackedRule := _this.CurrentEntry.Rule
+	if _this.CurrentEntry.MarkerID != "" {
+		// Markers can nest (a marked container holding marked objects), so the
+		// ID being completed is the one belonging to the entry being unstacked.
+		_this.markerID = _this.CurrentEntry.MarkerID
+	}
 	_this.CurrentEntry = _this.stack[len(_this.stack)-1]
 	_this.stack = _this.stack[:len(_this.stack)-1]
 	return unstackedRule
@@ -316,11 +322,13 @@ func (_this *Context) BeginNode() {
 func (_this *Context) BeginMarkerKeyable(id []byte, dataType DataType) {
 	_this.markerID = string(id)
 	_this.stackRule(&markedObjectKeyableRule, dataType, noObjectCount)
+	_this.CurrentEntry.MarkerID = _this.markerID
 }
 
 func (_this *Context) BeginMarkerAnyType(id []byte, dataType DataType) {
 	_this.markerID = string(id)
 	_this.stackRule(&markedObjectAnyTypeRule, dataType, noObjectCount)
+	_this.CurrentEntry.MarkerID = _this.markerID
 }
 
 func (_this *Context) LocalReferenceKeyable(identifier []byte) {
